@@ -424,6 +424,12 @@ def charconst_items():
             asint = int.from_bytes(txt.encode(), 'big').to_bytes(w, 'little').hex() if n <= min(w, 4) else None
             its.append({'line': "\t%s '%s'" % (kw, txt), 'want': [per.hex()] + ([asint] if asint else []) if n > min(w, 4) or n == 1 else [asint],
                         'sig': '8086/%s/char-constants' % kw})
+    # a string in a ten-byte field: every character as the extended-precision number of its code (0..255)
+    for txt, raw in (('a', b'a'), ('ab', b'ab'), ('a\\228', b'a\xe4'), ('\\128\\255z', b'\x80\xffz')):
+        its.append({'line': '\tdt "%s"' % txt, 'want': b''.join(ieee.ext80(float(c)).to_bytes(10, 'little') for c in raw).hex(), 'sig': '8086/dt/string'})
+    # the largest doubles are doubles
+    for lit, v in (('1.75e308', 1.75e308), ('1.7976931348623157e308', 1.7976931348623157e308), ('-1.79e308', -1.79e308)):
+        its.append({'line': '\tdq %s' % lit, 'want': struct.pack('<d', v).hex(), 'sig': '8086/dq/float-near-the-largest-double'})
     for kw in ('dd', 'dq', 'dt'):
         for lit in ('1.0e400', '1e309', '-1.0e400', '123456789.0e301', '1.0e5000'):
             its.append({'line': '\t%s %s' % (kw, lit), 'want': 'ERR', 'sig': '8086/%s/float-literal-beyond-double' % kw})
